@@ -125,7 +125,11 @@ async def scenario(loop, case, out, stats, fps, samples):
             steps = []
             for ch in pat:
                 if mode == "ladder":
-                    steps.append({"do": "raise", "exc": "ValueError"} if ch == "F" else {"do": "ok", "d": 3.0} if ch == "T" else {"do": "ok", "ret": 1})
+                    # (every third failure is an unencodable return value instead of an exception: it counts the same)
+                    fail_step = {"do": "badret", "what": "set"} if (i + len(steps)) % 3 == 2 else {"do": "raise", "exc": "ValueError"}
+                    if ch == "F" and fail_step["do"] == "badret":
+                        stats["failures_by_unencodable_return"] += 1
+                    steps.append(fail_step if ch == "F" else {"do": "ok", "d": 3.0} if ch == "T" else {"do": "ok", "ret": 1})
                 elif mode == "force_then_fail":
                     steps.append({"do": "eager", "action": "force_retry", "pre": []} if ch == "F" else {"do": "raise", "exc": "KeyError"} if ch == "X" else {"do": "ok", "ret": 1})
                 else:
